@@ -170,6 +170,26 @@ func runC19(c *Ctx) {
 			files = append(files, f)
 			fm[f.Rel] = f.Text
 		}
+		// a function added, from another file, to a global table that the first file defines
+		if nf > 1 && r.Bool() {
+			for _, d := range files[0].Decls {
+				if d.Kind == "global-table" {
+					k := 1 + r.Intn(nf-1)
+					nm := fmt.Sprintf("m%dxfn%d", k, r.Intn(1000))
+					files[k].Text += fmt.Sprintf("function %s.%s(p)\n  return p\nend\n", d.Name, nm)
+					fm[files[k].Rel] = files[k].Text
+					lx := RLex([]byte(files[k].Text))
+					for _, t := range lx.Toks {
+						if t.K == TName && t.Val == nm {
+							files[k].Decls = append(files[k].Decls, c19Decl{Name: nm, Kind: "function-member-of-table-defined-in-another-file", Tok: t, WsQuery: true})
+							break
+						}
+					}
+					// the tokens of the earlier declarations of that file are still valid: the text only grew at its end
+					break
+				}
+			}
+		}
 		c.Eval(1)
 		ws := c.NewWorkspace(fm)
 		defer ws.Remove()
